@@ -146,6 +146,25 @@ Theorem locate_keeps_objects :
 Proof. exact all_objs_locate. Qed.
 Print Assumptions locate_keeps_objects.
 
+(* getTrailer (MakeReader): with no failure of the byte source, the trailer chosen for a
+   truncated or damaged file is the one of the NEWEST section that offers a complete one - its
+   last cross-reference stream if that reads and has /Root, else its trailer dictionary - and
+   every newer section offers none; if no section offers one, "no trailer found" *)
+Theorem trailer_newest_complete :
+  forall (T : Type) (secs : list (tsec T)),
+    (forall s, In s secs -> no_source s) ->
+    get_trailer secs = match first_offer secs with Some d => Ok d | None => Err Other end.
+Proof. exact @get_trailer_newest_lemma. Qed.
+Print Assumptions trailer_newest_complete.
+
+Theorem trailer_newest_complete_split :
+  forall (T : Type) (secs : list (tsec T)) d,
+    (forall s, In s secs -> no_source s) ->
+    get_trailer secs = Ok d ->
+    exists newer s older, secs = newer ++ s :: older /\ offers s = Some d /\ forall s', In s' newer -> offers s' = None.
+Proof. exact @get_trailer_split. Qed.
+Print Assumptions trailer_newest_complete_split.
+
 (* ---------- the hypotheses are satisfiable ---------- *)
 (* the Writer's header: %PDF-1.4 LF %<80><80><80><80> LF LF *)
 Definition ex_pre : bytes := [37; 80; 68; 70; 45; 49; 46; 52; 10; 37; 128; 128; 128; 128; 10; 10]%N.
@@ -197,3 +216,10 @@ Proof. split; [apply tameb_tame; vm_compute; reflexivity|vm_compute; repeat cons
 (* and a line that begins with `xrefs` is what tameness excludes *)
 Example not_tame_ex : tameb ([10; 120; 114; 101; 102; 115; 10]%N) = false.
 Proof. vm_compute. reflexivity. Qed.
+
+Example trailer_ex :
+  get_trailer [ {| ts_xstm := None; ts_trailerpos := 900; ts_trailer := TBad |};            (* newest: cut off *)
+                {| ts_xstm := Some (TOk None); ts_trailerpos := 0; ts_trailer := TBad |};    (* an xref stream without /Root *)
+                {| ts_xstm := None; ts_trailerpos := 300; ts_trailer := TOk 1%N |};
+                {| ts_xstm := None; ts_trailerpos := 100; ts_trailer := TOk 0%N |} ] = Ok 1%N.
+Proof. reflexivity. Qed.
